@@ -33,24 +33,32 @@ def run(ctx):
     hists = []
     depth = 4 if ctx.thorough else 3
     # the statement at design level (GcSafe, GcComplete) over every strict history modulo VIEW, and G2
-    mcg = ctx.instance("MCG2_FilerNS_C20", "FilerNS", fc.cfg_text("FilerNS_c20.cfg", "VIEW ViewMC", "INVARIANT EmitW"),
+    mcg = ctx.instance("MCG2_FilerNS_C20", "FilerNS", fc.cfg_text("FilerNS_c20.cfg", "VIEW ViewMC" if ctx.thorough else "VIEW ViewS", "INVARIANT EmitW"),
                        fc.consts(MIX, [1, 2], [1], depth))
-    g2 = ctx.generate(mcg, workers=4, timeout=2400)
+    g2 = fc.mc_and_generate(ctx, mcg, timeout=2400)
     ctx.notes["g2_histories"] = len(g2)
-    hists += fc.sample(rng, g2, 9000 if ctx.thorough else 450)
+    hists += fc.sample_pref(rng, g2, 3000 if ctx.thorough else 300, fc.link_then(("write", "create", "update", "delete", "rename")))
+    # the implementation-shaped generator (Dev: every known-finding deviation, the chunk ids the unchanged code
+    # schedules) must break the design invariants - the findings are violations of the statement, not noise
+    dv = ctx.instance("DEV_FilerNS_C20_safe", "FilerNS", "SPECIFICATION Spec\nINVARIANT GcSafe\nCHECK_DEADLOCK FALSE",
+                      fc.consts(["create", "link", "delete", "write"], [1], [1], 3, dev=True))
+    ctx.model_check(dv, workers=2, expect_violation="GcSafe", label="known findings break GcSafe at design level")
     if ctx.thorough:
+        dv = ctx.instance("DEV_FilerNS_C20_complete", "FilerNS", "SPECIFICATION Spec\nINVARIANT GcComplete\nCHECK_DEADLOCK FALSE",
+                          fc.consts(["create", "link", "delete", "nodata"], [1], [1], 4, dev=True))
+        ctx.model_check(dv, workers=4, expect_violation="GcComplete", label="known findings break GcComplete at design level")
         mc = ctx.instance("MC_FilerNS_C20", "FilerNS", fc.cfg_text("FilerNS_c20.cfg"), fc.consts(MIX, [1], [1], 3))
         ctx.model_check(mc, workers=4, timeout=1500)
         g3 = ctx.instance("G3_FilerNS_C20", "FilerNS", "SPECIFICATION Spec\nINVARIANT Emit\nCHECK_DEADLOCK FALSE",
                           fc.consts(MIX + ["mkdir"], [1, 2, 3, 4], [1, 2], 10, links=3))
-        hists += ctx.generate(g3, simulate=2000, depth=11)
+        hists += ctx.generate(g3, simulate=800, depth=11)
     hists = [fc.observers(rng, fc.PATHS, [fc.norm_op(op, rng) for op in h], 0.1) for h in hists]
     # G4: seeded random input scripts with hard links, overwrites keeping some chunks, renames
-    hists += fc.random_scripts(rng, 1500 if ctx.thorough else 110, 14, WEIGHTS)
+    hists += fc.random_scripts(rng, 800 if ctx.thorough else 80, 12, WEIGHTS)
     fc.drive_and_judge(ctx, hists, nontrivial, mutate, ["C20"])
     ctx.rule = ("executions = one TLC witness history per (namespace state incl. link records and scheduled chunks, last "
                 "operation) to depth %d over 5 paths x 2 chunk ids x 2 link ids (sampled in the quick tier; thorough adds "
-                "random walks of length 10 over 4 chunk ids) + seeded random input scripts of length 14 with hard links and "
+                "random walks of length 10 over 4 chunk ids) + seeded random input scripts of length 12 with hard links and "
                 "overwrites that keep some chunks; after every gRPC call the driver records the chunk ids the filer "
                 "handed to its deletion queue / deleted directly during the call, the subtree and the link records; "
                 "non-trivial = >= 3 operations and at least one call that scheduled chunks" % depth)
